@@ -172,7 +172,7 @@ def mouse_seq(h):
             l, c = l + rng.choice([-1, 0, 1]), c + rng.choice([-1, 0, 1])
         else:
             (l, c) = rand_cell(h)
-        emit("mouse 2 %d %d %d %d" % (button, l, c, mod))
+        emit("mouse 2 %d %d %d %d" % (button if rng.random() < 0.7 else rng.choice([1, 2, 3]), l, c, mod))
     if rng.random() < 0.2:
         top_action(h)
     if rng.random() < 0.9:
@@ -248,6 +248,94 @@ def random_history():
                 emit("geom %d %d %d %d %d" % ((w,) + r))
     if rng.random() < 0.3: emit("flush")
 
+# ----------------------------------------------------------------------------------------------- adversarial templates
+def stack_history():
+    """A stack of windows sharing one cell under a common parent (the root or a nested window); every window has
+    handlers; one handler performs a mutation on a sibling, the parent or itself; key and mouse events at the cell."""
+    L, C = rng.randint(5, 9), rng.randint(8, 16)
+    emit("new %d %d" % (L, C))
+    count(feat, "template:stack")
+    parent = 0
+    ids = [0]
+    if rng.random() < 0.5:
+        emit("win 0 1 1 %d %d 0" % (L - 2, C - 2)); parent = 1; ids.append(1)
+    base_t, base_l = (1, 1) if parent == 1 else (0, 0)
+    n = rng.randint(2, 4)
+    stack = []
+    for i in range(n):
+        f = 0
+        if rng.random() < 0.1: f |= 8
+        if rng.random() < 0.1: f |= 1
+        t, l = rng.randint(0, 1), rng.randint(0, 1)
+        emit("win %d %d %d %d %d %d" % (parent, t, l, 3 - t, 3 - l, f))
+        stack.append(len(ids)); ids.append(len(ids))
+    if rng.random() < 0.4:   # one nested child on top of a stack member
+        emit("win %d 0 0 2 2 0" % rng.choice(stack)); ids.append(len(ids))
+    cell = (base_t + 1, base_l + 1)
+    actor = rng.choice(ids[1:])
+    kind_of_actor = rng.choice("km")
+    for w in ids:
+        for kind in "km":
+            if w == actor and kind == kind_of_actor:
+                a = rng.choice("ccuuhhsstT") if rng.random() < 0.8 else rng.choice(ACTS)
+                tgt = rng.choice([rng.choice(ids), parent, actor, rng.choice(stack)])
+                count(actmix, a)
+                ent = "%d,%s%d" % (1 if rng.random() < 0.2 else 0, a, tgt)
+                if rng.random() < 0.3:
+                    a2 = rng.choice("cuhf"); count(actmix, a2)
+                    ent += ",%s%d" % (a2, rng.choice(ids))
+                emit("bind %d %s %s 0" % (w, kind, ent))
+            elif rng.random() < 0.85:
+                emit("bind %d %s %d" % (w, kind, 1 if rng.random() < 0.1 else 0))
+    if rng.random() < 0.4: emit("act f%d" % rng.choice(ids))
+    for _ in range(rng.randint(2, 4)):
+        if rng.random() < 0.5:
+            emit("key %d 0" % rng.choice([1, 2]))
+        else:
+            emit("mouse %d 1 %d %d 0" % (rng.choice([1, 4]), cell[0], cell[1]))
+    if rng.random() < 0.5: emit("flush")
+
+def drag_history():
+    """A drag that starts in a (nested) window; between the drag events the source, an ancestor or something else is
+    hidden, closed, destroyed or shown again; handlers may do the same from inside DRAG_START / DRAG_DROP / DRAG_STOP;
+    the button reported while dragging may differ from the one pressed."""
+    L, C = rng.randint(6, 10), rng.randint(10, 20)
+    emit("new %d %d" % (L, C))
+    count(feat, "template:drag")
+    emit("win 0 1 1 4 6 0")           # 1
+    emit("win 1 0 1 3 4 0")           # 2 (child of 1): absolute (1,2)
+    nested = rng.random() < 0.5
+    if nested: emit("win 2 1 1 2 2 0")  # 3 (child of 2): absolute (2,3)
+    emit("win 0 %d %d 2 3 0" % (L - 2, C - 3))   # drop target
+    ids = [0, 1, 2] + ([3] if nested else []) + [4 if nested else 3]
+    src = 3 if nested else 2
+    target = ids[-1]
+    mut = rng.random() < 0.5
+    for w in ids:
+        ents = []
+        for i in range(4):
+            e = "1" if (w == src and rng.random() < 0.8) or rng.random() < 0.15 else "0"
+            if mut and rng.random() < 0.25:
+                a = rng.choice("uuchhs"); count(actmix, a)
+                e += ",%s%d" % (a, rng.choice([src, src, 1, 2, w]))
+            ents.append(e)
+        if rng.random() < 0.9: emit("bind %d m %s" % (w, " ".join(ents)))
+    pb = rng.choice([1, 1, 2])
+    pl, pc = (2, 3) if nested else (1, 2)
+    emit("mouse 1 %d %d %d 0" % (pb, pl, pc))
+    db = pb if rng.random() < 0.6 else rng.choice([1, 2, 3])
+    emit("mouse 2 %d %d %d 0" % (db, pl, pc + 1))
+    if rng.random() < 0.6:
+        a = rng.choice("hhhccus"); count(actmix, "top:" + a)
+        emit("act %s%d" % (a, rng.choice([1, 2, src, src])))
+    emit("mouse 2 %d %d %d 0" % (db, L - 2, C - 3))
+    if rng.random() < 0.4:
+        a = rng.choice("hsuc"); count(actmix, "top:" + a)
+        emit("act %s%d" % (a, rng.choice([1, 2, src])))
+    emit("mouse 3 %d %d %d 0" % (rng.choice([pb, db]), L - 2, C - 3))
+    if rng.random() < 0.5:
+        emit("mouse 1 1 %d %d 0" % (pl, pc)); emit("mouse 2 1 0 0 0")
+
 # ----------------------------------------------------------------------------------------------- exhaustive
 def exhaustive():
     nh = 0
@@ -312,7 +400,10 @@ if a.tier == "exhaustive":
 else:
     H = 1500 if a.tier == "quick" else 10000
     for _ in range(H):
-        random_history()
+        x = rng.random()
+        if x < 0.70: random_history()
+        elif x < 0.87: stack_history()
+        else: drag_history()
     info = {"histories": H}
 open(a.out, "w").write("\n".join(lines) + "\n")
 info.update({"ops": len(lines), "mix": mix, "handler_actions": actmix, "features": feat})
